@@ -182,6 +182,17 @@ func init() {
 	})
 	reg("verifTier", func(m *Machine, fn *ssa.Function, a []Value) Value { return m.S.Const(64, uint64(m.Opt.Tier)) })
 	reg("verifNative", func(m *Machine, fn *ssa.Function, a []Value) Value { return m.S.False })
+	reg("verifRaceDetect", func(m *Machine, fn *ssa.Function, a []Value) Value {
+		m.Extra["raceon"] = a[0].(*Term).IsTrue()
+		return nil
+	})
+	reg("verifRaces", func(m *Machine, fn *ssa.Function, a []Value) Value {
+		rs, _ := m.Extra["races"].([]string)
+		for _, r := range rs {
+			m.Note("race: " + r)
+		}
+		return m.S.Const(64, uint64(len(rs)))
+	})
 	reg("verifYield", func(m *Machine, fn *ssa.Function, a []Value) Value { m.Yield(nil, "verifYield"); return nil })
 	reg("verifSwitches", func(m *Machine, fn *ssa.Function, a []Value) Value {
 		return m.S.Const(64, uint64(m.Sched.Switches))
